@@ -285,18 +285,24 @@ CreatePine(w) ==
     /\ UNCHANGED <<floor, dealt, committed, slot, wops, wi, seqvars, chan, cache, rvars, xvars, acked, maxRet, emitted, kinit, rdvars, cvars>>
 
 \* engines whose conflict carries no value: read the index               gate: kv.get
+ReadAnswers == {"ok"} \cup (IF faults < FaultBudget THEN FaultKinds \cap {"rerr"} ELSE {})
 CreateGet(w) ==
     /\ wpc[w] = "c_get"
-    /\ LET k == Op(w).key  r == wloc[w].rev IN
-       IF idx[k] = NoIdx
+    /\ \E a \in ReadAnswers :
+      /\ faults' = IF a = "rerr" THEN faults + 1 ELSE faults
+      /\ HF(w, "CreateGet", "kv.get", IF a = "rerr" THEN "rerr" ELSE "", 0)
+      /\ LET k == Op(w).key  r == wloc[w].rev IN
+       IF a = "rerr"       \* the lookup fails: the create ends with "unavailable"
+       THEN /\ wpc' = [wpc EXCEPT ![w] = "notify"]
+            /\ wloc' = [wloc EXCEPT ![w].res = "err", ![w].engDone = TRUE]
+       ELSE IF idx[k] = NoIdx
        THEN /\ wpc' = [wpc EXCEPT ![w] = "c_pine2"] /\ wloc' = wloc
        ELSE IF idx[k].del /\ idx[k].rev < r
        THEN /\ wpc' = [wpc EXCEPT ![w] = "c_cas"]
             /\ wloc' = [wloc EXCEPT ![w].old = idx[k]]
        ELSE /\ wpc' = [wpc EXCEPT ![w] = "notify"]
             /\ wloc' = [wloc EXCEPT ![w].old = idx[k], ![w].res = "cas", ![w].engDone = TRUE]
-    /\ H(w, "CreateGet", "kv.get")
-    /\ UNCHANGED <<store, floor, dealt, committed, slot, wops, wi, seqvars, chan, cache, rvars, faults, xvars, acked, maxRet, emitted, kinit, rdvars, cvars>>
+    /\ UNCHANGED <<store, floor, dealt, committed, slot, wops, wi, seqvars, chan, cache, rvars, xvars, acked, maxRet, emitted, kinit, rdvars, cvars>>
 
 \* index vanished between conflict and read: put-if-absent again          gate: kv.commit
 CreatePine2(w) ==
@@ -321,13 +327,18 @@ CreateCas(w) ==
 \* absent: put-if-absent again), or did somebody write the key (a genuine conflict)?   gate: kv.get
 CreateReGet(w) ==
     /\ wpc[w] = "c_reget"
-    /\ LET k == Op(w).key IN
-       IF idx[k] = NoIdx
+    /\ \E a \in ReadAnswers :
+      /\ faults' = IF a = "rerr" THEN faults + 1 ELSE faults
+      /\ HF(w, "CreateReGet", "kv.get", IF a = "rerr" THEN "rerr" ELSE "", 0)
+      /\ LET k == Op(w).key IN
+       IF a = "rerr"       \* it cannot be told whether the key is absent: "unavailable", not a failed condition
+       THEN /\ wpc' = [wpc EXCEPT ![w] = "notify"]
+            /\ wloc' = [wloc EXCEPT ![w].res = "err", ![w].engDone = TRUE]
+       ELSE IF idx[k] = NoIdx
        THEN /\ wpc' = [wpc EXCEPT ![w] = "c_pine2"] /\ wloc' = wloc
        ELSE /\ wpc' = [wpc EXCEPT ![w] = "notify"]
             /\ wloc' = [wloc EXCEPT ![w].res = "cas", ![w].engDone = TRUE]
-    /\ H(w, "CreateReGet", "kv.get")
-    /\ UNCHANGED <<store, floor, dealt, committed, slot, wops, wi, seqvars, chan, cache, rvars, faults, xvars, acked, maxRet, emitted, kinit, rdvars, cvars>>
+    /\ UNCHANGED <<store, floor, dealt, committed, slot, wops, wi, seqvars, chan, cache, rvars, xvars, acked, maxRet, emitted, kinit, rdvars, cvars>>
 
 \* update with expectation > 0: allocate; refuse expectations from the future   gate: deal
 UpdateDeal(w) ==
